@@ -225,7 +225,10 @@ class StreamReaderBufferedProtocol(asyncio.BufferedProtocol):
 
     def get_buffer(self, sizehint: int) -> WriteableBuffer:
         if (external_buffer_view := self.__external_buffer_view) is not None:
-            return external_buffer_view
+            if (read_waiter := self.__read_waiter) is not None and not read_waiter.done():
+                return external_buffer_view
+            # The reader has been cancelled but its task did not wake up yet: its buffer must not be used anymore.
+            self.__external_buffer_view = None
         # Ignore sizehint, the buffer is already at its maximum size.
         # Returns unused buffer part
         if self.__buffer is None:
@@ -339,6 +342,10 @@ class StreamReaderBufferedProtocol(asyncio.BufferedProtocol):
                 self.__external_buffer_view = external_buffer
                 try:
                     nbytes_written_in_external_buffer = await self.__read_waiter
+                except BaseException:
+                    # The task has been cancelled after buffer_updated(): keep the data written in the external buffer.
+                    self.__restore_data_from_external_buffer(self.__read_waiter, external_buffer)
+                    raise
                 finally:
                     self.__external_buffer_view = None
         finally:
@@ -347,6 +354,19 @@ class StreamReaderBufferedProtocol(asyncio.BufferedProtocol):
         if nbytes_written_in_external_buffer is None:
             self._check_for_connection_lost()
         return nbytes_written_in_external_buffer
+
+    def __restore_data_from_external_buffer(self, waiter: asyncio.Future[int | None], external_buffer: WriteableBuffer) -> None:
+        if not waiter.done() or waiter.cancelled() or waiter.exception() is not None or self.__buffer is None:
+            return
+        if not (nbytes := waiter.result()):
+            return
+        # This data has been received before whatever is currently stored in the internal buffer.
+        already_written = self.__buffer_nbytes_written
+        with memoryview(external_buffer) as external_buffer_view:
+            data = bytes(external_buffer_view[:nbytes]) + bytes(self.__buffer_view[:already_written])
+        self.__buffer_view[: len(data)] = data
+        self.__buffer_nbytes_written = len(data)
+        self._maybe_pause_transport()
 
     def _read_waiter_fut(self, set_result_cb: Callable[[asyncio.Future[int | None]], None]) -> None:
         if (waiter := self.__read_waiter) is not None:
